@@ -7,9 +7,11 @@ import (
 	"io/fs"
 	"os"
 	"path/filepath"
+	"runtime"
 	"sort"
 	"strings"
 	"sync"
+	"time"
 
 	dawn "github.com/pgavlin/dawn"
 	"github.com/pgavlin/dawn/diff"
@@ -109,6 +111,7 @@ type BuildReq struct {
 	PreferIndex bool     `json:"preferindex,omitempty"`
 	GC          string   `json:"gc,omitempty"` // "" | "before": run Project.GC() after load, before the build (as the test helper does)
 	NoRun       bool     `json:"norun,omitempty"`
+	Repeat      int      `json:"repeat,omitempty"` // run the same loaded Project this many extra times (as the REPL's run() does)
 	Order       []string `json:"order,omitempty"` // package load order imposed through vf.gate (empty = free-running)
 	// crash injection (child processes only)
 	CrashSite  string `json:"crashsite,omitempty"`
@@ -323,6 +326,7 @@ func HashTree(dir string, skip func(rel string) bool) string {
 func RunBuild(env *Env, req BuildReq, logOff int) (res BuildResult, newOff int) {
 	rec := &Recorder{}
 	env = &Env{Base: env.Base, Order: req.Order}
+	baseGoroutines := runtime.NumGoroutine()
 	func() {
 		defer func() {
 			if p := recover(); p != nil {
@@ -356,14 +360,25 @@ func RunBuild(env *Env, req BuildReq, logOff int) (res BuildResult, newOff int) 
 			res.SnapLoad = HashTree(env.Root(), nil)
 		}
 		err = proj.Run(l, &dawn.RunOptions{Always: req.Always, DryRun: req.DryRun})
+		for i := 0; i < req.Repeat && err == nil; i++ {
+			err = proj.Run(l, &dawn.RunOptions{Always: req.Always, DryRun: req.DryRun})
+		}
 		if req.DryRun {
 			res.SnapRun = HashTree(env.Root(), nil)
 		}
 		if err != nil {
 			res.RunErr = err.Error()
+			// After a cyclic-dependency error the runner returns while other targets may still be
+			// running (or not even started); wait until the goroutines of this run are gone
+			// before looking at the events or touching the tree again.
+			for i := 0; i < 600 && runtime.NumGoroutine() > baseGoroutines; i++ {
+				time.Sleep(5 * time.Millisecond)
+			}
 		}
 	}()
-	res.Events = rec.Events
+	rec.mu.Lock()
+	res.Events = append([]Event{}, rec.Events...)
+	rec.mu.Unlock()
 	res.Log, newOff = env.ReadLog(logOff)
 	return res, newOff
 }
